@@ -101,7 +101,8 @@ def gen_case(rng, i, tier):
         if rng.random() < 0.3:
             lines.append("ctl 0x%x 1" % rng.choice([0x21, 0x31, 0x41, 0x15, 0x20]))
             lines.append("setupinit")
-    lines.append("encode %d" % rng.choice([0, 1, 255, 4096, 30000] + ([100000] if tier == "thorough" else [])))
+    sig = rng.choice(["", "", "", " silence", " faint"])
+    lines.append("encode %d%s" % (rng.choice([0, 1, 255, 4096, 30000] + ([100000] if tier == "thorough" else [])), sig))
     lines.append("clear")
     return lines
 
@@ -118,6 +119,12 @@ def run(chk):
         for (rate, qb, nom) in ((44100, fbits(0.4), 64000 * max(1, chn)), (8000, fbits(0.1), 16000 * max(1, chn))):
             cases.append(["case %d" % len(cases), "vbr %d %d %08x" % (chn, rate, qb), "setupinit", "encode 300", "clear"])
             cases.append(["case %d" % len(cases), "initmanaged %d %d -1 %d -1" % (chn, rate, nom), "encode 300", "clear"])
+    # managed triples with a hard minimum fed with silence / a faint tone for a second: every candidate packet is below the minimum,
+    # the manager has to go to the top of its candidates and pad
+    for chn, rate, nom in ((1, 44100, 64000), (2, 44100, 128000), (1, 8000, 16000), (2, 22050, 48000), (6, 48000, 256000)):
+        for mx, mn in ((-1, nom // 2), (nom * 2, nom // 2), (nom, nom), (-1, nom)):
+            for sig in ("silence", "faint"):
+                cases.append(["case %d" % len(cases), "initmanaged %d %d %d %d %d" % (chn, rate, mx, nom, mn), "encode %d %s" % (rate, sig), "clear"])
     for rate in (-1, 0, 1, 7999, 8000, 8001, 200000, 200001, 2 ** 31 - 1):
         cases.append(["case %d" % len(cases), "initvbr 2 %d %08x" % (rate, fbits(0.5)), "encode 300", "clear"])
     cases += common.load_corpus("C15", len(cases))
